@@ -77,6 +77,23 @@ Theorem T20c_stale_errno_irrelevant : forall g1 g2 e1 e2 os file chunks,
 Proof. exact stale_errno_irrelevant. Qed.
 Print Assumptions T20c_stale_errno_irrelevant.
 
+(* T20b read at the errno level: the finished file of any writer session, written by the loop with errno as state, entered
+   with any errno, is byte-identical to the fault-free one, or the process stopped *)
+Theorem T20c_file_independent_at_errno_level : forall compress_default compress_level,
+  (forall a raw c, compress_default a raw = Ok c -> c <> []) -> (forall a l raw c, compress_level a l raw = Ok c -> c <> []) ->
+  forall (g : outcome -> eno -> eno) e o off0 ops w rs os,
+  writer_session compress_default compress_level o off0 ops = Ok (w, rs) ->
+  match strip_e (write_chunks_e g os e [] (writer_chunks w)) with
+  | Ok (f, _) => f = writer_bytes w
+  | Abort => True
+  | _ => False
+  end.
+Proof.
+  intros cd cl H1 H2 g e o off0 ops w rs os H. rewrite write_chunks_e_refines.
+  exact (proj1 (T20b_file_independent_of_fragmentation cd cl H1 H2 o off0 ops w rs os H)).
+Qed.
+Print Assumptions T20c_file_independent_at_errno_level.
+
 Example T20c_example :
   (* errno = EINTR on entry, every successful write sets errno to EINTR again: short writes are still not retried *)
   write_chunks_e (fun _ _ => E_intr) [OPartial 2; OEintr; OPartial 1; OFull] E_intr [9] [[1; 2; 3; 4; 5]; [6]]
